@@ -46,8 +46,13 @@ class Item:
         return d
 
 
+CURRENT = None       # the Check of this process (main_wrapper finishes it when a run is cut short)
+
+
 class Check:
     def __init__(self, pid, tier, seed):
+        global CURRENT
+        CURRENT = self
         self.pid, self.tier, self.seed = pid, tier, seed
         self.t0 = time.time()
         self.items = []
@@ -382,6 +387,8 @@ def _parallel_job(job):
     """child process: verify one contract with its own engine"""
     pid, tier, seed, label, modname, funcname, args, installs = job
     import importlib
+    from ..pyvc import solver as _solver
+    _solver.NO_POOL = True          # the jobs already fill the cores; no pool inside a pool
     chk = Check(pid, tier, seed)
     chk.defer = True
     E = chk.engine()
@@ -510,7 +517,61 @@ def run_native(script, payload, timeout=120, repo=None):
                        capture_output=True, timeout=timeout, env=env, cwd=root)
     if p.returncode != 0:
         raise RuntimeError(f"native harness {script} failed: {p.stderr[-2000:]}")
-    return json.loads(p.stdout)
+    res = json.loads(p.stdout)
+    if isinstance(res, dict) and "aborted_after_hangs" in res:
+        raise NativeHang(res["aborted_after_hangs"])
+    return res
+
+
+class NativeHang(Exception):
+    """the real code gave no answer within the time limit on these inputs (the harness stops
+    after a few of them instead of waiting one time limit per remaining input)"""
+    def __init__(self, hangs):
+        super().__init__(f"{len(hangs)} input(s) without answer")
+        self.hangs = hangs
+
+
+def hang_text(h):
+    if h.get("kind") == "cli":
+        return f"`python -m norminette {' '.join(h.get('args', []))}` does not end within {h.get('seconds')} s"
+    if h.get("kind") == "rule":
+        sp = h.get("spec", {})
+        return f"{sp.get('cls')}.{sp.get('method', 'run')} gives no answer within {h.get('seconds')} s on a hand-built token list"
+    what = "the tokenizer" if h.get("kind") == "lex" else "the pipeline (tokenizer + rules)"
+    return f"{what} gives no answer within {h.get('seconds')} s on {h.get('text')!r} as {h.get('name')}"
+
+
+def replay_hang(task):
+    """re-run an input that hung: exit 1 while it still gives no answer"""
+    h = task["input"]
+    if h.get("kind") == "cli":
+        import tempfile, shutil
+        d = tempfile.mkdtemp(prefix="hang_")
+        try:
+            for rel, text in h.get("files", {}).items():
+                os.makedirs(os.path.dirname(os.path.join(d, rel)) or d, exist_ok=True)
+                with open(os.path.join(d, rel), "w", encoding="utf-8") as fh:
+                    fh.write(text)
+            env = dict(os.environ, PYTHONPATH=repo_root())
+            try:
+                p = subprocess.run([NATIVE_PY, "-m", "norminette"] + h.get("args", []), cwd=d, capture_output=True,
+                                   text=True, timeout=h.get("seconds", 60), env=env)
+                print("the run ends with status", p.returncode)
+                return 0
+            except subprocess.TimeoutExpired:
+                print(hang_text(h))
+                return 1
+        finally:
+            shutil.rmtree(d, ignore_errors=True)
+    op = {"lex": "lex", "pipeline": "pipeline", "rule": "rule"}.get(h.get("kind"), "pipeline")
+    req = dict(h.get("spec", {}), op="rule") if op == "rule" else {"op": op, "text": h.get("text", ""), "name": h.get("name", "a.c")}
+    try:
+        r = run_native("native", {"tasks": [req]}, timeout=120)["results"][0]
+    except NativeHang:
+        print(hang_text(h))
+        return 1
+    print("answer:", json.dumps(r)[:600])
+    return 1 if r.get("exc") == "TIMEOUT" else 0
 
 
 def native_batch(tasks, chunk=300, procs=14, timeout=900):
@@ -542,8 +603,33 @@ def main_wrapper(fn):
     ap.add_argument("--replay", default=None)
     a = ap.parse_args(sys.argv[2:])
     seed = int(os.environ.get("VERIF_SEED", "0") or 0)
+    tier = a.tier if a.tier in ("quick", "thorough") else "quick"
     try:
-        rc = fn(a.tier if a.tier in ("quick", "thorough") else "quick", seed, a.replay)
+        if a.replay:
+            with open(a.replay) as fh:
+                task = (json.load(fh) or {}).get("replay") or {}
+            if task.get("op") == "hang":
+                sys.exit(replay_hang(task))
+        rc = fn(tier, seed, a.replay)
+    except NativeHang as e:
+        # no answer is a verdict about the code, not a failure of the checker: nothing the
+        # property describes (tokens, diagnostics, verdict lines) is produced for these inputs
+        pid = sys.argv[1]
+        chk = CURRENT if CURRENT is not None and CURRENT.pid == pid else Check(pid, tier, seed)
+        chk.add_bounded("real code under a watchdog", "every input of the bounded families gets an answer within the time limit",
+                        f"stopped after {len(e.hangs)} input(s) without answer", len(e.hangs), e.hangs,
+                        nontrivial=len(e.hangs), samples=[hang_text(h)[:200] for h in e.hangs])
+        chk.items.append(Item(f"{pid}.native.answers_within_the_time_limit", "bounded", "failed", "native", 0.0,
+                              {"inputs": [hang_text(h)[:300] for h in e.hangs]}))
+        h = e.hangs[0]
+        chk.report_violation(f"{pid}.native.answers_within_the_time_limit", {
+            "property": pid, "obligation": f"{pid}.native.answers_within_the_time_limit",
+            "replay": {"op": "hang", "input": h}, "confirmed_on_real_code": True,
+            "note": "the check was cut short: the other obligations of this run are not reported"},
+            what=hang_text(h) + " -- nothing the property describes is produced for it", confirmed=True)
+        chk.assumptions.append("run cut short after inputs without answer: contracts and the remaining bounded families "
+                               "were not evaluated in this run")
+        rc = chk.finish(level_if_complete="other")
     except Exception:
         traceback.print_exc()
         print("CHECKER-ERROR (exit 3): this is a failure of the checking machinery, not a verdict")
